@@ -317,3 +317,10 @@ KTW = [(WKT, "key_sched128_tweaked_model"), (WKT, "key_sched64_tweaked_model"), 
 for pid, items in (("C04", KTW), ("C10", KTW[:2] + KTW[4:])):
     if pid in PLAN:
         add_imports(pid, WHI + ["ModelCipher", "ModelCtr", "WholeProc", "WholeCtr", "WholeCtrModel", "WholeKeyTweak"]); PLAN[pid] += items
+
+# the two whole-function layers composed: CTR with the call run by the block function's own code (WholeCompose.v)
+WCM = "WholeCompose.v"
+CMP = [(WCM, "pctr128_composed"), (WCM, "pctr64_composed")]
+for pid, items in (("C05", CMP),):
+    if pid in PLAN:
+        add_imports(pid, WHI + ["ModelCipher", "ModelCtr", "ProofsApiCtr", "WholeProc", "WholeCtr", "WholeCtrModel", "WholeContracts", "WholeKeyTweak", "WholeCompose"]); PLAN[pid] += items
